@@ -437,6 +437,41 @@ def final_info(recs):
     probe = d[j+1] if j + 1 < len(d) and d[j] == -2 else ("blocked", d[j+1]) if j + 1 < len(d) and d[j] == -3 else None
     return quiet, drained, bad, probe
 
+def oracle_lost_wakeup(case, recs):
+    """C04 on a Multi channel: at the quiescent end of the run (nobody inside an operation, every producer done) a listener that is driven by
+    a task sits parked and not notified although events accepted for it are still in its queue (what it yields when polled now)"""
+    from . import unigen
+    fin = final_info(recs)
+    if fin is None or not fin[0]: return []
+    drained = fin[1]
+    progs = case.meta["progs"]
+    st = unigen.end_states(case, recs)
+    if any(v == "running" for v in st.values()): return []
+    hits = []
+    for t, p in enumerate(progs):
+        if p and p[0][0] == "drive":
+            i = p[0][1][0]
+            if st.get(t) == ("parked", i) and drained.get(i):
+                cls = None
+                if case.meta["chan"] in ("arc_atomic", "ogre_arc_atomic"):
+                    # one lock-free ring per listener, wake decision from the length sampled at the slot reservation: the known family of
+                    # the movable atomic Uni channel (F1) whenever that sample can be stale, i.e. another thread acted inside some send
+                    if unigen.sends_overlap(case, recs): cls = "C04.multi_atomic.overlapping_sends"
+                    elif unigen.consumer_inside_a_send(case, recs): cls = "C04.multi_atomic.overlapping_sends"
+                hits.append((cls, "lost wake-up: listener %d is parked and not notified with %d accepted event(s) in its queue, all producers returned" % (i, len(drained[i]))))
+    return hits[:1]
+
+def gen_wake(rng, chan):
+    """C04: 1-4 producers (1-3 events each) against 1..MAX_STREAMS task-driven listeners, bursty schedule then round-robin to quiescence"""
+    N = 8; M = rng.choice([1, 2]); k = rng.randint(1, M)
+    nprod = rng.randint(1, 4)
+    progs = [[("send", [1000 * (t + 1) + j]) for j in range(rng.randint(1, 2 if nprod > 2 else 3))] for t in range(nprod)]
+    for i in range(k): progs.append([("drive", [i])])
+    nth = len(progs)
+    sched = random_sched(rng, nth, rng.randint(10, 40 * nth), burst=rng.choice([0.3, 0.6, 0.85, 0.9]))
+    for _ in range(50): sched += list(range(nth))
+    return mk_case(chan, N, M, k, progs, sched, {"profile": "fixed"})
+
 def oracle_history(case, recs):
     """C10 on a sequential history: a stream yields exactly the events accepted during its lifetime, in order, at most once.
     The one known deviation (F8) is pinned down exactly: `left[i]` holds what earlier owners of id i left unconsumed, in order;
